@@ -1431,11 +1431,25 @@ func (f *formatter) ExprTernary(n *ast.ExprTernary) {
 
 func (f *formatter) ExprUnaryMinus(n *ast.ExprUnaryMinus) {
 	n.MinusTkn = f.newToken('-', []byte("-"))
+
+	// "- -$a" and "- --$a" must not become "--$a" and "---$a"
+	switch n.Expr.(type) {
+	case *ast.ExprUnaryMinus, *ast.ExprPreDec:
+		f.addFreeFloating(token.T_WHITESPACE, []byte(" "))
+	}
+
 	n.Expr.Accept(f)
 }
 
 func (f *formatter) ExprUnaryPlus(n *ast.ExprUnaryPlus) {
 	n.PlusTkn = f.newToken('+', []byte("+"))
+
+	// "+ +$a" and "+ ++$a" must not become "++$a" and "+++$a"
+	switch n.Expr.(type) {
+	case *ast.ExprUnaryPlus, *ast.ExprPreInc:
+		f.addFreeFloating(token.T_WHITESPACE, []byte(" "))
+	}
+
 	n.Expr.Accept(f)
 }
 
